@@ -28,7 +28,7 @@ func init() {
 				n = 16000
 			}
 			return fw.Meta{N: n, Level: "exploration", Chunk: 10, CaseTimeoutS: 300, MinNT: 150,
-				Rule:        "one case = one generated table (0..300 strictly ascending keys from families fixed-width/random/shared-prefix/marker-laden/short-with-empty-key/4-byte/20-byte, optionally a 1-4 KiB last key that dominates the index; values nil/empty/up to 2 KiB incl. marker-laden, occasionally 4..7 KiB and 32..41 KiB) written by the stream writer or the skip-list writer under data x index compression (4x4), bloom sizing {default, 1, 1e6, fp 0.5}, write buffers {16,37,4096,default}; opened with every applicable index loader (slice, skip list, disk; map only when all keys are exactly 4 or 20 bytes) and read buffers {16,37,4096,default}; Contains/Get on every key and its neighbours (prefix, extension, +-1), \"\", below min, above max; full Scan; ScanStartingAt and ScanRange on probe samples incl. lo==hi, bounds between keys, both below min / above max and lo>hi (must be rejected); half of the evaluations pass all probe keys and bounds through reused buffers that are refilled for the next call. evaluations = (table, loader) pairs; non-trivial = >=2 keys; distinct by content hash + loader",
+				Rule:        "one case = one generated table (0..300 strictly ascending keys from families fixed-width/random/shared-prefix/marker-laden/short-with-empty-key/4-byte/20-byte, optionally a 1-4 KiB last key that dominates the index; values nil/empty/up to 2 KiB incl. marker-laden, occasionally 4..7 KiB and 32..41 KiB) written by the stream writer or the skip-list writer under data x index compression (4x4), bloom sizing {default, 1, 1e6, fp 0.5}, write buffers {16,37,4096,default}; opened with every applicable index loader (slice, skip list, disk; map only when all keys are exactly 4 or 20 bytes) and read buffers {16,37,4096,default}; Contains/Get on every key and its neighbours (prefix, extension, +-1), \"\", below min, above max; full Scan; ScanStartingAt and ScanRange on probe samples incl. lo==hi, bounds between keys, both below min / above max and lo>hi (must be rejected); half of the evaluations pass all probe keys and bounds through reused buffers that are refilled for the next call. evaluations = (table, loader) pairs; non-trivial = >=2 keys; distinct by content hash + loader In the reused-buffer evaluations the bytes behind every key/bound argument in the caller's buffer are marked and must be unchanged after the call.",
 				MinObs:      map[string]int64{"get_contains_probes": 50000, "range_scans_checked": 5000, "loader_disk": 100, "loader_slice": 100, "loader_skiplist": 100, "loader_map": 20, "lo_gt_hi_rejected": 200, "written_keys_found": 10000, "dominating_last_key_tables": 20},
 				Assumptions: []string{"map loader only within its documented domain (fixed 4/20-byte keys, probes of the same length)"},
 			}
